@@ -247,6 +247,17 @@ pub fn main(args: &Args) {
                 let k = key_of(msg, arg);
                 fed.retain(|(kk, _)| kk.as_integer().and_then(|i| i64::try_from(i).ok()) != Some(k));
             }
+            // the options member present, its map carrying only the members named in arg ("rk,uv", "up=false", "")
+            "options-partial" => {
+                let k = key_of(msg, "options");
+                fed.retain(|(kk, _)| kk.as_integer().and_then(|i| i64::try_from(i).ok()) != Some(k));
+                let mut m = vec![];
+                for part in arg.split(',').filter(|p| !p.is_empty() && *p != "empty") {
+                    let (name, val) = part.split_once('=').map(|(a, b)| (a, b == "true")).unwrap_or((part, true));
+                    m.push((Cbor::Text(name.into()), Cbor::Bool(val)));
+                }
+                fed.push((Cbor::Integer(k.into()), Cbor::Map(m)));
+            }
             _ => {}
         }
         let fed_bytes = to_bytes(&Cbor::Map(fed));
@@ -257,7 +268,7 @@ pub fn main(args: &Args) {
                 e["de"] = json!("ok");
                 // the message types have no PartialEq: two values are equal when their serialisations AND their Debug
                 // renderings agree (the latter catches a member that both directions drop consistently)
-                e["rt"] = json!(if variant == "no-options" { true } else { again == plain && again_dbg == plain_dbg });
+                e["rt"] = json!(if variant == "no-options" || variant == "options-partial" { true } else { again == plain && again_dbg == plain_dbg });
                 if let Some((up, rk, uv)) = options_of(msg, &fed_bytes) {
                     e["up"] = json!(up);
                     e["rk"] = json!(rk);
